@@ -109,6 +109,22 @@ def run(tier, seed, model_ok, spec_ok, replay=None):
     cases, direct = [], []
     for i in range(n):
         doc = cast_doc(g, g.r.choice([2, 3, 3, 4]))
+        if i % 12 == 5:
+            # castable strings under keys that cannot be written as a concrete path part but are reached by fan-out (None), and under
+            # bool / float keys next to their int twins: the cast is written back under exactly that key
+            odd = g.r.choice([None, None, True, 2.5, 0, ""])
+            inner = {odd: g.r.choice(CASTABLE), "x": g.r.choice(CASTABLE + UNCASTABLE), 1: g.r.choice(CASTABLE)}
+            doc = {odd: g.r.choice(CASTABLE), "rec": inner, "lst": [dict(inner), g.r.choice(CASTABLE)]} if g.r.random() < 0.6 else [inner, {odd: "7"}]
+            pth = g.r.choice([[MapT()], [Prim("rec"), MapT()], [Prim("lst"), ListT(), MapT()], [MapT(), MapT()]]) if isinstance(doc, dict) \
+                else g.r.choice([[ListT(), MapT()], [Prim(0), MapT()]])
+            rts = [RuleT(PathT(pth), g.r.choice([Leaf("Value", "truthy", []), Leaf("ValueDataType", "in_", [[int, bool, str]]), Null()]),
+                         [g.r.choice(["int", "bool"])])]
+            if g.r.random() < 0.4:
+                rts.append(RuleT(PathT(pth), Leaf("Value", "is_instance", [str]), [g.r.choice(["int", "bool"])]))
+            c = sc.make_case(rts, doc)
+            if c:
+                cases.append(c)
+            continue
         if i % 3 == 0:
             rt = rg.rule(doc, cast_p=1.0)
             c = rule_case(rt, doc)
